@@ -1,4 +1,5 @@
 import pv
+READY = True
 
 SPEC = {
     "targets": ["Properties/C08.vo", "Run/C08.vo"],
